@@ -872,6 +872,8 @@ fn corpus() -> Vec<(&'static str, Case, Vec<Ev>)> {
     // needs-grace witness (timing assumption broken on purpose: not an oracle case)
     let evs = vec![s(0), s(1), s(1), sg(1), s(1), s(1), s(1), s(1), s(1), s(0)];
     v.push(("needs_grace", Case { lock: LockF::Absent, meta: MetaF::Absent, bystander: None, cont: two(Drv::Server, Drv::Server), assume_grace: false, real_pids: false }, evs));
+    // S23 (fixed): half-written lock of a dead creator next to a dead pid's meta.json: the server recovers in 14 steps
+    v.push(("s23_half_lock_dead_meta", Case { lock: LockF::Half(DEAD), meta: MetaF::Rec(DEAD2), bystander: None, cont: vec![Contender { pid: 101, drv: Drv::Server }], assume_grace: true, real_pids: false }, (0..14).map(|_| sg(0)).collect()));
     // plain recovery by one server, and a client cleaning for a later server
     v.push(("recover_solo", Case { lock: LockF::Rec(DEAD), meta: MetaF::Rec(DEAD), bystander: None, cont: vec![Contender { pid: 101, drv: Drv::Server }], assume_grace: true, real_pids: false }, (0..16).map(|_| s(0)).collect()));
     v
